@@ -164,6 +164,32 @@ def extra_scenarios(ctx, P, start):
                 add(codec, "raw", "nalu", limit, RATES[codec][0], P.nxt("xs0", [65535, 0]), [u, tail],
                     lambda m: window_orders(m, rng)[:2], base=P.nxt("base", BASES))
 
+    # loss: a packet that never arrives makes the list fill up and forces progress over the hole; a second packet inside
+    # the buffered range is only late (it arrives after the forced step, displaced by fewer arrivals than the list holds):
+    # the receiver must stop at that second hole and deliver the late packet's unit.  Not covered by Lossless (the
+    # arrival order is not a permutation); decided by the equality with the modelled receiver (Feed: forced progress,
+    # then sequential drain only).
+    def loss_orders(n, mx, lost, late_by, back_after):
+        o = [i for i in range(1, n + 1) if i != lost]
+        late = lost + late_by
+        if late in o:
+            o.remove(late)
+            pos = o.index(lost + back_after) + 1 if (lost + back_after) in o else len(o)
+            o.insert(pos, late)
+        return o
+    for c in ("avc", "hevc"):
+        for kfrag in (1, 3):
+            for mx, late_by, back in ((8, 3, 10), (16, 6, 18), (8, 2, 9), (16, 0, 0), (6, 4, 7)):
+                limit = 100
+                lo, hi = klass(c, kfrag, limit)
+                nun = (mx + 14 + kfrag) // kfrag
+                units = [{"h": P.header(c, min(kfrag, 2), False), "n": lo + (i * 7) % (hi - lo + 1), "id": 257 * (i % 200 + 1)} for i in range(nun)]
+                lost = 4 * kfrag + 1 + (mx % 3)
+                s0 = P.nxt("ls0", [1000, 65536 - lost - 3, 65536 - lost - mx])
+                add(c, c, "nalu", limit, 90000, s0, units,
+                    lambda m, mx=mx, lost=lost, late_by=late_by, back=back: [loss_orders(m, mx, lost, late_by, back)] if late_by
+                    else [[i for i in range(1, m + 1) if i != lost]], maxlist=mx)
+
     # every header value: H.264 32 types x 4 NRI (FU), 23 x 4 (single); H.265 64 types (FU) / 48 (single) x layer x TID
     hdrs = []
     for t in range(0, 32):
